@@ -1,12 +1,160 @@
-(* C12 — property theorems. *)
+(* C12 — property theorems.  This file contains only statements closed by
+   `exact <lemma>` (or a 1-3 line wrapper) and the Print Assumptions that the
+   check collects.
+   Domain of the positive theorems: ns >= 144 (= samples_taper; shorter
+   recordings make the converter raise, see C12_short_recording_refuted) and
+   every admissible window size W (W mod 12 = 0, the assert of init_params, and
+   W > 576 = samples_overlap, without which WindowGenerator has no positive
+   stride).  ns and W are otherwise unbounded. *)
 From Coq Require Import ZArith List Bool Lia.
 From IBL.lib Require Import PyInt.
 From IBL.C17 Require Import Model.
-From IBL.C12 Require Import Model Proofs.
+From IBL.C12 Require Import Model Proofs Cast CastProofs.
 Import ListNotations.
 Open Scope Z_scope.
 
-Theorem C12_meta_declares_2500 : forall version m chns nb sh,
-  rd_fs (write_lf_meta version m chns nb sh) = 2500.
-Proof. reflexivity. Qed.
-Print Assumptions C12_meta_declares_2500.
+Local Notation d4 := (0, 0, 0, 0).
+
+(* The loop runs over exactly WindowGenerator's windows (C17's model), once each. *)
+Theorem C12_windows_are_C17_windows : forall ns W, 144 <= ns -> admissible W = true ->
+  exists rs l, lf_windows ns W = Some rs /\ firstlast ns W overlap = Some l /\
+    map (fun r => let '(f, la, _, _) := r in (f, la)) rs = l /\
+    Z.of_nat (length rs) = nwin ns W overlap.
+Proof. exact pub_windows. Qed.
+Print Assumptions C12_windows_are_C17_windows.
+
+(* The LFP stream has ceil(n/12) samples. *)
+Theorem C12_lf_length : forall ns W, 144 <= ns -> admissible W = true ->
+  lf_nsamples ns W = Some (cdiv ns 12).
+Proof. exact lf_nsamples_closed. Qed.
+Print Assumptions C12_lf_length.
+
+(* Row m of the .lf.bin, m = 0 .. ceil(ns/12)-1 in file order, is taken at AP
+   sample 12*m: every LF sample is produced exactly once, in order. *)
+Theorem C12_lf_positions : forall ns W, 144 <= ns -> admissible W = true ->
+  lf_positions ns W = Some (map (fun m => 12 * m) (zrange (Z.to_nat (cdiv ns 12)))).
+Proof. exact lf_positions_closed. Qed.
+Print Assumptions C12_lf_positions.
+
+(* ... hence which AP sample each LF row comes from does not depend on the window size. *)
+Theorem C12_positions_independent_of_window : forall ns W1 W2, 144 <= ns ->
+  admissible W1 = true -> admissible W2 = true -> lf_positions ns W1 = lf_positions ns W2.
+Proof.
+  intros ns W1 W2 Hns H1 H2.
+  now rewrite (lf_positions_closed ns W1 Hns H1), (lf_positions_closed ns W2 Hns H2).
+Qed.
+Print Assumptions C12_positions_independent_of_window.
+
+(* Each window contributes a non-empty interval [lo_i, hi_i) of LF row numbers;
+   the intervals start at 0, are adjacent, and end at ceil(ns/12); the rows of
+   window i are taken at AP samples 12*lo_i, 12*(lo_i+1), ... : row m is
+   produced by the one window whose interval contains m. *)
+Theorem C12_windows_tile_lf_rows : forall ns W rs, 144 <= ns -> admissible W = true ->
+  lf_windows ns W = Some rs ->
+  exists lohi : nat -> Z * Z,
+    fst (lohi O) = 0 /\
+    snd (lohi (length rs - 1)%nat) = cdiv ns 12 /\
+    (forall i, (S i < length rs)%nat -> snd (lohi i) = fst (lohi (S i))) /\
+    (forall i, (i < length rs)%nat -> fst (lohi i) < snd (lohi i) /\
+       row_positions (nth i rs d4) = map (fun m => 12 * m) (zrange2 (fst (lohi i)) (snd (lohi i))) /\
+       row_count (nth i rs d4) = snd (lohi i) - fst (lohi i)).
+Proof. intros ns W rs Hns Hadm. exact (pub_tiling ns W Hns Hadm rs). Qed.
+Print Assumptions C12_windows_tile_lf_rows.
+
+(* Every kept LF sample lies at least 2*taper = 288 AP samples inside the window
+   it is computed from, except towards the start of the file (first window) and
+   towards the end of the file (last window) — the fact the 1-LSB claims rest on. *)
+Theorem C12_lf_margin : forall ns W rs (i : nat) p, 144 <= ns -> admissible W = true ->
+  lf_windows ns W = Some rs -> (i < length rs)%nat ->
+  In p (row_margins (nth i rs d4)) ->
+  (i = O \/ 2 * taper <= fst p) /\ (i = (length rs - 1)%nat \/ 2 * taper < snd p).
+Proof. intros ns W rs i p Hns Hadm. exact (pub_margins ns W Hns Hadm rs i p). Qed.
+Print Assumptions C12_lf_margin.
+
+(* The int16 -> float32 (x 1.0) -> / 1.0 -> rint -> int16 path of the sync
+   channel (binary32, round to nearest even, Flocq) is the identity on int16. *)
+Theorem C12_sync_cast_identity : forall v, -32768 <= v <= 32767 -> sync_cast v = v.
+Proof. exact sync_cast_id. Qed.
+Print Assumptions C12_sync_cast_identity.
+
+(* The sync column of the LF file is exactly every 12th AP sync word. *)
+Theorem C12_lf_sync_exact : forall ns W (sync : Z -> Z), 144 <= ns -> admissible W = true ->
+  (forall p, 0 <= p < ns -> -32768 <= sync p <= 32767) ->
+  lf_sync sync_cast sync ns W =
+  Some (map (fun m => sync (12 * m)) (zrange (Z.to_nat (cdiv ns 12)))).
+Proof.
+  intros ns W sync Hns Hadm Hr. apply lf_sync_closed; try assumption.
+  intros p Hp. apply sync_cast_id. auto.
+Qed.
+Print Assumptions C12_lf_sync_exact.
+
+(* NP2.4: the rewritten metadata declares 2500 Hz, an lf stream, the number of
+   channels actually written in every row, and the file (whatever duration the
+   stale fileTimeSecs suggests, meta_ns) opens with as many samples as were
+   written: shape = content.  (One sync channel, sns2 = 1, as on every imec
+   stream; the code writes n_chns - 1 as the lf count.) *)
+Theorem C12_lf_meta_opens_NP24 : forall m shanks nrows meta_ns sh,
+  0 <= nrows -> sns2 m = 1 ->
+  let '(chns, m', nb, (nc, fs, islf, nsy, nso)) := lf_file 24 m shanks nrows meta_ns sh in
+  fs = 2500 /\ nc = Z.of_nat (length chns) /\ nsy = 1 /\
+  nso = nrows /\ nc * nso * 2 = nb /\ fsize m' = nb /\
+  sns0 m' = 0 /\ acq0 m' = 0 /\ sns1 m' + sns2 m' = nc /\ acq1 m' = sns1 m' /\
+  (where_eq sh 0 shanks <> [] -> islf = true) /\
+  subset_hi m' = nc - 1 /\ subset_orig m' = chns /\ shank_key m' = sh /\ original_meta m' = false.
+Proof. exact meta_opens_24. Qed.
+Print Assumptions C12_lf_meta_opens_NP24.
+
+(* NP2.1: nSavedChans is not rewritten; under the converter's own precondition
+   (one shank holding every site, nSavedChans = sites + sync) the same holds. *)
+Theorem C12_lf_meta_opens_NP21 : forall m shanks nrows meta_ns sh,
+  0 <= nrows -> sns2 m = 1 -> shanks <> [] ->
+  Forall (fun s => s = sh) shanks -> nsaved m = Z.of_nat (length shanks) + 1 ->
+  let '(chns, m', nb, (nc, fs, islf, nsy, nso)) := lf_file 21 m shanks nrows meta_ns sh in
+  fs = 2500 /\ nc = Z.of_nat (length chns) /\ nsy = 1 /\
+  nso = nrows /\ nc * nso * 2 = nb /\ fsize m' = nb /\
+  sns0 m' = 0 /\ acq0 m' = 0 /\ sns1 m' + sns2 m' = nc /\ acq1 m' = sns1 m' /\
+  islf = true /\ shank_key m' = sh /\ original_meta m' = false.
+Proof. exact meta_opens_21. Qed.
+Print Assumptions C12_lf_meta_opens_NP21.
+
+(* Faithful to the code: a recording shorter than the taper cannot be converted
+   (extract_lfp cannot broadcast the 144-value taper): the clause "the LFP
+   stream has ceil(n/12) samples" fails for 1 <= ns < 144.  Known finding F-C12-a. *)
+Theorem C12_short_recording_rejected : forall ns W, 1 <= ns < 144 -> admissible W = true ->
+  lf_windows ns W = None /\ lf_positions ns W = None /\ lf_nsamples ns W = None.
+Proof.
+  intros ns W Hns Hadm. unfold lf_positions, lf_nsamples.
+  now rewrite (short_rejected ns W Hns Hadm).
+Qed.
+Print Assumptions C12_short_recording_rejected.
+
+Theorem C12_short_recording_refuted : exists ns W,
+  1 <= ns /\ admissible W = true /\ lf_nsamples ns W <> Some (cdiv ns 12).
+Proof. exists 143, 60000. vm_compute. repeat split; discriminate. Qed.
+Print Assumptions C12_short_recording_refuted.
+
+(* A window size that is not a multiple of 12 (or not longer than the overlap) is refused. *)
+Theorem C12_inadmissible_window_rejected : forall ns W, admissible W = false -> lf_windows ns W = None.
+Proof. exact inadmissible_rejected. Qed.
+Print Assumptions C12_inadmissible_window_rejected.
+
+(* Non-vacuity: concrete inputs meeting the hypotheses, with the model's values. *)
+Example C12_example_windows :
+  admissible 1812 = true /\
+  lf_windows 5003 1812 = Some [(0, 1812, 0, 127); (1236, 3048, 24, 127);
+                               (2472, 4284, 24, 127); (3708, 5003, 24, 108)] /\
+  lf_nsamples 5003 1812 = Some 417 /\ cdiv 5003 12 = 417.
+Proof. vm_compute. repeat split. Qed.
+
+Example C12_example_smallest_window :
+  admissible 588 = true /\ lf_nsamples 1213 588 = Some 102 /\
+  lf_positions 150 588 = Some [0; 12; 24; 36; 48; 60; 72; 84; 96; 108; 120; 132; 144].
+Proof. vm_compute. repeat split. Qed.
+
+Example C12_example_meta :
+  let m := {| acq0 := 384; acq1 := 0; acq2 := 1; sns0 := 384; sns1 := 0; sns2 := 1; nsaved := 385;
+              fsize := 0; rate := 30000; subset_hi := 384; subset_orig := []; original_meta := true;
+              shank_key := -1 |} in
+  let '(chns, m', nb, rd) := lf_file 24 m [0; 1; 0; 3; 1; 0] 10 7 0 in
+  chns = [0; 2; 5; 384] /\ nb = 80 /\ rd = (4, 2500, true, 1, 10).
+Proof. vm_compute. repeat split. Qed.
